@@ -763,6 +763,52 @@ func ruleV4(c *Ctx) {
 						}
 						sort.Strings(dom)
 					}
+					// predicate guard: `if isComparison(op)` where the predicate's body lists the values
+					if len(dom) == 0 {
+						for _, cnd := range conds {
+							call, ok := cnd.(*ast.CallExpr)
+							if !ok || len(call.Args) != 1 {
+								continue
+							}
+							id, ok := call.Fun.(*ast.Ident)
+							if !ok {
+								continue
+							}
+							fobj, ok := info.Uses[id].(*types.Func)
+							if !ok {
+								continue
+							}
+							for _, pk := range c.P.Pkgs {
+								for _, f := range pk.Syntax {
+									for _, d := range f.Decls {
+										fd, ok := d.(*ast.FuncDecl)
+										if !ok || fd.Body == nil || pk.TypesInfo.Defs[fd.Name] != fobj {
+											continue
+										}
+										ast.Inspect(fd.Body, func(m ast.Node) bool {
+											if cc, ok := m.(*ast.CaseClause); ok {
+												returnsTrue := false
+												for _, st := range cc.Body {
+													if rs, ok := st.(*ast.ReturnStmt); ok && len(rs.Results) == 1 && types.ExprString(rs.Results[0]) == "true" {
+														returnsTrue = true
+													}
+												}
+												if returnsTrue {
+													for _, e := range cc.List {
+														if tn, _, nm, ok := typeOfConst(pk.TypesInfo, e); ok && tn == fromT {
+															dom = append(dom, nm)
+														}
+													}
+												}
+											}
+											return true
+										})
+									}
+								}
+							}
+						}
+						sort.Strings(dom)
+					}
 				}
 				if len(dom) == 0 {
 					c.anchorFail("enum bridge %s-%s+%s at %s: cannot determine the range of values it converts", fromT, aname, bname, where)
